@@ -175,6 +175,20 @@ def documents(tier):
         wsdocs.append(mk(base, ws, ws))
         wsdocs.append(mk(S("1", 1), "", ws))
     fams.append(("whitespace", "all", wsdocs))
+    # wide objects with one repeated key: the printers probe for repeated keys differently for small and for wide
+    # objects (pairwise scan vs sort / fingerprint); keys k0..k(n-1) give many keys of equal length with the same first
+    # and last character (k10, k20, k30 ...), and the duplicate is put at the end, right after the original, and midway
+    wide = []
+    for n in ((17, 21) if quick else (15, 16, 17, 18, 21, 33, 40)):
+        ks = [('"k%d"' % i, "k%d" % i) for i in range(n)]
+        for i in range(n):
+            for j in ([n] if quick else sorted({i + 1, (i + n) // 2 + 1, n})):
+                items = [(k, S(str(idx), idx)) for idx, k in enumerate(ks)]
+                items.insert(j, (ks[i], S("999", 999)))
+                wide.append(mk(("o", items)))
+                if not quick and i % 5 == 0:
+                    wide.append(mk(("a", [("o", items), S("1", 1)])))
+    fams.append(("wide-objects-with-repeated-key", "limit-quick" if quick else "limit", wide))
     # nesting families
     leafs = [("1", 1, True), ('"é"', "é", True), ("[]", [], True), ("{}", {}, True)]
     mid = []
